@@ -249,7 +249,7 @@ func (s *Sorts) SortOf(t types.Type) string {
 	case *types.Slice:
 		srt := fmt.Sprintf("(Slice %s)", s.SortOf(u.Elem()))
 		// force the instantiation of the parametric datatype at this element sort
-		s.declare("inst:"+srt, fmt.Sprintf("(declare-const inst!%d %s)", len(s.declared), srt))
+		s.declare("inst:"+srt, fmt.Sprintf("(declare-const sortinst!%d %s)", len(s.declared), srt))
 		return srt
 	case *types.Array:
 		if n, ok := byteArray(u); ok {
@@ -273,7 +273,7 @@ func (s *Sorts) SortOf(t types.Type) string {
 		return fmt.Sprintf("(Array Int %s)", s.SortOf(u.Elem()))
 	case *types.Map:
 		srt := fmt.Sprintf("(Map %s %s)", s.SortOf(u.Key()), s.SortOf(u.Elem()))
-		s.declare("inst:"+srt, fmt.Sprintf("(declare-const inst!%d %s)", len(s.declared), srt))
+		s.declare("inst:"+srt, fmt.Sprintf("(declare-const sortinst!%d %s)", len(s.declared), srt))
 		return srt
 	case *types.Pointer:
 		if _, el, ok := ptrStruct(u); ok {
